@@ -404,14 +404,11 @@ func (m *Manager) writeSnapshot(w io.Writer) error {
 		for _, id := range ids {
 			meta := version.ValueLogs[id]
 			metaCopy := meta
-			if meta.Valid {
-				if err := writeEdit(w, Edit{Type: EditUpdateValueLog, ValueLog: &metaCopy}); err != nil {
-					return err
-				}
-			} else {
-				if err := writeEdit(w, Edit{Type: EditDeleteValueLog, ValueLog: &metaCopy}); err != nil {
-					return err
-				}
+			// An update edit carries Offset and Valid verbatim; a delete edit would
+			// reset the offset of an invalid entry, so the reloaded version would
+			// differ from the in-memory one after a rewrite.
+			if err := writeEdit(w, Edit{Type: EditUpdateValueLog, ValueLog: &metaCopy}); err != nil {
+				return err
 			}
 		}
 	}
